@@ -4,17 +4,19 @@
    Model: file = list of items (IImpl attrs body | IUse attrs tree | IOther attrs x | IVerb x), `gen` = the abstract
    generator of the attribute macros with `show` off, `expand_macros` = src/file.rs (pre-scan of the `use` items, the
    loop, flatten), `fsu`/`update`/`is_mac` = src/use_macro.rs, `example_ops` = the fs operations of src/write.rs.
-   State of the code: with the fixes dup-attr, abs-path, glob-both, reimport and late-import.
+   State of the code: with the fixes dup-attr, abs-path, glob-both, reimport, late-import and crate-alias.
 
    The earlier `_refuted` theorems for two attributes on one impl, `::interthread::mac`, a macro imported under
-   several names, `use interthread::*` with both macros, and a `use` item after the impl are replaced by positive
+   several names, `use interthread::*` with both macros, a `use` item after the impl, and the crate imported under
+   another name (`use interthread as it; #[it::mac]`, `use interthread::{self as it};`) are replaced by positive
    theorems (C18_shape without guard, C18_abs_path, C18_every_import, C18_other_macro_import_kept,
-   C18_recognition_position_free + the *_fixed examples in Text/Example.v).
+   C18_recognition_position_free, C18_is_complete, C18_every_alias, C18_crate_alias_fixed, C18_crate_alias_file_fixed
+   + the *_fixed examples in Text/Example.v).
 
-   FULL-STRENGTH STATEMENT that is still FALSE of the code (kept visible; `_refuted` witnesses below, replayed on the
-   real macro by props/C18.py as the only known finding):
+   FULL-STRENGTH STATEMENT, formerly FALSE of the code, now proved (C18_is_complete) for every macro name other than
+   `interthread` and `self`:
      (R)  forall mac uses p, denotes mac uses p = true -> is_mac (track mac uses) p = true
-          -- false for `use interthread as it; #[it::mac]` (crate-alias) *)
+   The behaviour before the repair stays documented in Text/UseMacro.v (is_mac_old, is_crate_alias_old_refuted). *)
 From Coq Require Import List String Bool Permutation.
 Import ListNotations.
 From IT Require Import Text.UseMacro Text.Example.
@@ -65,11 +67,18 @@ Theorem C18_recognition_position_free : forall mac f1 f2 ue p,
 Proof. exact (state_constant A B X). Qed.
 
 (* hence every attribute path that denotes the macro w.r.t. the whole file is recognised at every position,
-   crate-alias paths excepted *)
+   crate-alias paths included (macro name other than `interthread`, `self`) *)
 Theorem C18_denoted_is_recognised : forall mac f1 f2 ue p,
-  alias_path p = false -> denotes mac (uses_of A B X (f1 ++ f2)) p = true ->
+  (mac =? INTERTHREAD)%string = false -> (mac =? "self")%string = false ->
+  denotes mac (uses_of A B X (f1 ++ f2)) p = true ->
   is_mac (fst (fold_left (fun s it => next A B X (fst s) (snd s) it) f1 (prescan A B X mac (f1 ++ f2), ue))) p = true.
 Proof. exact (denoted_is_recognised A B X). Qed.
+
+(* the former statement: any macro name, non-alias paths *)
+Theorem C18_denoted_is_recognised_guarded : forall mac f1 f2 ue p,
+  alias_path p = false -> denotes mac (uses_of A B X (f1 ++ f2)) p = true ->
+  is_mac (fst (fold_left (fun s it => next A B X (fst s) (snd s) it) f1 (prescan A B X mac (f1 ++ f2), ue))) p = true.
+Proof. exact (denoted_is_recognised_guarded A B X). Qed.
 End C18.
 
 (* file_self_use on a use tree of any shape and nesting: the paths it reports are exactly the names bound by the
@@ -90,18 +99,25 @@ Theorem C18_other_macro_import_kept : forall mac1 mac2 t, (mac2 =? mac1)%string 
   filter (imports_mac mac2) (oleaves (snd (fsu mac1 t))) = filter (imports_mac mac2) (leaves t).
 Proof. exact fsu_keeps_other_macro. Qed.
 
-(* `is` after the use items seen so far: the full path (with or without leading `::`), or any imported name *)
+(* `is` after the use items seen so far: the full path (with or without leading `::`), any imported name, or the macro
+   name behind any recorded alias of the crate *)
 Theorem C18_is_exact : forall mac uses p,
   is_mac (track mac uses) p = true <->
-  segs p = [INTERTHREAD; mac] \/ (lead p = false /\ exists n, In n (vis_binds mac (flat_map leaves uses)) /\ segs p = [n]).
+  segs p = [INTERTHREAD; mac] \/ (lead p = false /\ exists n, In n (vis_binds mac (flat_map leaves uses)) /\ segs p = [n])
+  \/ (lead p = false /\ exists a, In a (flat_map (aliases mac) uses) /\ segs p = [a; mac]).
 Proof. exact is_exact. Qed.
 
-(* what `is` accepts denotes the macro ... *)
-Theorem C18_is_sound : forall mac uses p, well_imported mac uses = true ->
+(* what `is` accepts denotes the macro (the recorded names are genuine imports, the recorded aliases genuine aliases) ... *)
+Theorem C18_is_sound : forall mac uses p, well_imported mac uses = true -> well_aliased mac uses = true ->
   is_mac (track mac uses) p = true -> denotes mac uses p = true.
 Proof. exact is_sound. Qed.
 
-(* ... and, crate-alias paths excepted, everything that denotes the macro is accepted *)
+(* ... and everything that denotes the macro is accepted, crate-alias paths included *)
+Theorem C18_is_complete : forall mac uses p, (mac =? INTERTHREAD)%string = false -> (mac =? "self")%string = false ->
+  denotes mac uses p = true -> is_mac (track mac uses) p = true.
+Proof. exact is_complete. Qed.
+
+(* the former guarded statement (any macro name, non-alias paths) *)
 Theorem C18_is_complete_guarded : forall mac uses p,
   alias_path p = false -> denotes mac uses p = true -> is_mac (track mac uses) p = true.
 Proof. exact is_complete_guarded. Qed.
@@ -113,14 +129,37 @@ Theorem C18_every_import : forall mac uses n, In n (mac_names mac (flat_map leav
   is_mac (track mac uses) (ap false [n]) = true.
 Proof. exact is_every_import. Qed.
 
-Theorem C18_crate_alias_refuted : exists mac uses p, well_imported mac uses = true /\ alias_path p = true /\
-  denotes mac uses p = true /\ is_mac (track mac uses) p = false.
-Proof. exact is_crate_alias_refuted. Qed.
+Theorem C18_every_alias : forall mac uses a, (mac =? INTERTHREAD)%string = false -> (mac =? "self")%string = false ->
+  In a (crate_aliases (flat_map leaves uses)) -> is_mac (track mac uses) (ap false [a; mac]) = true.
+Proof. exact is_every_alias. Qed.
 
-Theorem C18_crate_alias_file_refuted : exists file : list titem, exists p,
+(* use interthread as it;  and  use interthread::{self as it};  : `it::actor` is recognised (was: C18_crate_alias_refuted, same
+   witness for the first), `it::family` (in the actor pass) and `::it::actor` are not; the import stays in the tree *)
+Theorem C18_crate_alias_fixed :
+  let p := ap false ["it"; "actor"] in
+  let uses1 := [URename "interthread" "it"] in
+  let uses2 := [UPath "interthread" (UGroup [URename "self" "it"])] in
+  alias_path p = true
+  /\ (well_imported "actor" uses1 = true /\ well_aliased "actor" uses1 = true /\ denotes "actor" uses1 p = true
+      /\ is_mac (track "actor" uses1) p = true
+      /\ is_mac (track "actor" uses1) (ap false ["it"; "family"]) = false
+      /\ is_mac (track "actor" uses1) (ap true ["it"; "actor"]) = false
+      /\ snd (update (um_new "actor") (URename "interthread" "it")) = Some (URename "interthread" "it"))
+  /\ (well_imported "actor" uses2 = true /\ well_aliased "actor" uses2 = true /\ denotes "actor" uses2 p = true
+      /\ is_mac (track "actor" uses2) p = true
+      /\ is_mac (track "actor" uses2) (ap false ["it"; "family"]) = false
+      /\ is_mac (track "actor" uses2) (ap true ["it"; "actor"]) = false
+      /\ snd (update (um_new "actor") (UPath "interthread" (UGroup [URename "self" "it"]))) = Some (UPath "interthread" (UGroup [URename "self" "it"]))).
+Proof. exact is_crate_alias. Qed.
+
+(* use interthread as it; #[it::actor] impl C : expanded, the import of the crate stays (was: C18_crate_alias_file_refuted, same witness) *)
+Theorem C18_crate_alias_file_fixed :
+  let file : list titem := [IUse [] (URename "interthread" "it"); IImpl [at_ false ["it"; "actor"] "a1"] "C"] in
+  let p := ap false ["it"; "actor"] in
   denotes "actor" (all_uses file) p = true /\ alias_path p = true /\ has_annotated file p = true /\
-  has_annotated (t_expand ["actor"] file) p = true.
-Proof. exact crate_alias_file_refuted. Qed.
+  has_annotated (t_expand ["actor"] file) p = false /\
+  t_expand ["actor"] file = [IUse [] (URename "interthread" "it"); IImpl [] "C"; IVerb "gen:actor:a1:C"].
+Proof. exact crate_alias_file_fixed. Qed.
 
 (* nothing outside <cwd>/examples/<dir> is created, changed or deleted (<cwd>/examples may be created), whatever
    the tree was, whether or not the directories existed, with or without main.rs *)
@@ -143,15 +182,18 @@ Print Assumptions C18_in_order.
 Print Assumptions C18_attrs_stripped.
 Print Assumptions C18_recognition_position_free.
 Print Assumptions C18_denoted_is_recognised.
+Print Assumptions C18_denoted_is_recognised_guarded.
 Print Assumptions C18_use_tracking.
 Print Assumptions C18_remaining_import_valid.
 Print Assumptions C18_other_macro_import_kept.
 Print Assumptions C18_is_exact.
 Print Assumptions C18_is_sound.
+Print Assumptions C18_is_complete.
 Print Assumptions C18_is_complete_guarded.
 Print Assumptions C18_abs_path.
 Print Assumptions C18_every_import.
-Print Assumptions C18_crate_alias_refuted.
-Print Assumptions C18_crate_alias_file_refuted.
+Print Assumptions C18_every_alias.
+Print Assumptions C18_crate_alias_fixed.
+Print Assumptions C18_crate_alias_file_fixed.
 Print Assumptions C18_fs_footprint.
 Print Assumptions C18_fs_examples_dir.
